@@ -514,6 +514,31 @@ def main(ck):
                     ck.corr_failures.append({"grid": gi, "step": step, "op": case["history"][step], "impl_vars": iset,
                                              "model_vars": mset})
                     break
+    # directed cache probe: every ordered pair of differently parameterised calls of each cached conversion
+    pair_count = 0
+    pm = meshgen.gen_mesh(rng, max_ops=5, partial=False)
+    pref = Ref(pm, "lonlat")
+    combos = {
+        "poly": [("poly", pe, pj, True, False) for pe in ("exclude", "split", "ignore") for pj in (None, "robinson", "platecarree")
+                 if not (pe == "split" and pj)],
+        "line": [("line", pe, pj, True, False) for pe in ("exclude", "split", "ignore") for pj in (None, "robinson", "platecarree")],
+        "gdf": [("gdf", pe, pj, eng, True, False) for pe in ("exclude", "split", "ignore") for pj in (None, "robinson")
+                for eng in ("spatialpandas", "geopandas") if not (pe == "split" and pj)],
+        "ball": [("ball", c, sy, me, False) for c in ("nodes", "face centers", "edge centers")
+                 for sy, me in (("spherical", "haversine"), ("cartesian", "minkowski"))],
+        "kd": [("kd", c, sy, me, False) for c in ("nodes", "face centers", "edge centers")
+               for sy, me in (("cartesian", "minkowski"), ("spherical", "minkowski"))],
+    }
+    for fam, ops_ in combos.items():
+        if ck.tier == "quick" and len(ops_) > 7:
+            ops_ = rng.sample(ops_, 7)
+        for a in ops_:
+            for b in ops_:
+                if a == b:
+                    continue
+                pair_count += 1
+                run_history(ck, [pm], ["lonlat"], [(0, a, []), (0, b, []), (0, a, [])], [pref], g0, None, stats)
+    ck.cov["evaluations"] += pair_count
     # the correspondence broke: look for a concrete observable difference harder (longer histories)
     if ck.corr_failures and not ck.violations:
         for extra in range(40):
@@ -553,7 +578,7 @@ def main(ck):
                       "cross_section, get_dual, copy, repr; after every op: variable set vs model, every stored variable vs its "
                       "fresh value, module constants vs import-time snapshot, result vs fresh result; non-trivial = length >= 2")
     ck.extra.update({"op_histogram": stats["ops"], "history_lengths": {str(k): v for k, v in sorted(lens.items())},
-                     "model_histories_compared": len(keep), "jit_off_values_compared": jit_cases,
+                     "model_histories_compared": len(keep), "ordered_cache_call_pairs": pair_count, "jit_off_values_compared": jit_cases,
                      "translator": "harness/translators/c08_caches.py -> Gen/C08_caches.v (compared/stored key sets of 5 caches)"})
     ck.trusted += ["translator c08_caches.py (fail-closed)", "dependency table c08_deps (hand-written from the populators; checked "
                    "against the variable sets observed after every operation)",
